@@ -138,6 +138,46 @@ Lemma tie_bytes_separator : TIE_bytes_separator =
    (0, "assert(bytes_compare(ubuf_data(start),ubuf_size(start),limit,len_limit)<0)")].
 Proof. reflexivity. Qed.
 
+(* mtbl/writer.c: _mtbl_writer_flush *)
+Lemma tie_writer_flush : TIE_writer_flush =
+  [(0, "structdata_blockb");
+   (0, "assert(!w->closed)");
+   (0, "assert(w->m.file_version==MTBL_FORMAT_V2)");
+   (0, "if(block_builder_empty(w->data))return");
+   (0, "b.comp_type=w->opt.compression_type");
+   (0, "b.comp_level=w->opt.compression_level");
+   (0, "b.len_last_key=ubuf_size(w->last_key)");
+   (0, "b.last_key=my_malloc(b.len_last_key)");
+   (0, "memcpy(b.last_key,ubuf_data(w->last_key),b.len_last_key)");
+   (0, "block_builder_finish(w->data,&b.data,&b.len_data)");
+   (0, "block_builder_reset(w->data)");
+   (0, "if(w->pool!=NULL)");
+   (1, "structdata_block*bthread=my_calloc(1,sizeof(*bthread))");
+   (1, "memcpy(bthread,&b,sizeof(b))");
+   (1, "threadpool_dispatch(w->pool,w->rhandler,true,_compress_block_wrapper,(void*)bthread)");
+   (0, "else");
+   (1, "_mtbl_writer_compress_block(&b)");
+   (1, "_mtbl_writer_write_data_block(w,&b)")].
+Proof. reflexivity. Qed.
+
+(* mtbl/writer.c: _mtbl_writer_compress_block *)
+Lemma tie_writer_compress_block : TIE_writer_compress_block =
+  [(0, "mtbl_resres");
+   (0, "structdata_blocktmp");
+   (0, "if(b->comp_type==MTBL_COMPRESSION_NONE)");
+   (1, "res=mtbl_res_success");
+   (0, "elseif(b->comp_level==DEFAULT_COMPRESSION_LEVEL)");
+   (1, "res=mtbl_compress(b->comp_type,b->data,b->len_data,&tmp.data,&tmp.len_data)");
+   (0, "else");
+   (1, "res=mtbl_compress_level(b->comp_type,b->comp_level,b->data,b->len_data,&tmp.data,&tmp.len_data)");
+   (0, "assert(res==mtbl_res_success)");
+   (0, "if(b->comp_type!=MTBL_COMPRESSION_NONE)");
+   (1, "free(b->data)");
+   (1, "b->data=tmp.data");
+   (1, "b->len_data=tmp.len_data");
+   (0, "b->crc=htole32(mtbl_crc32c(b->data,b->len_data))")].
+Proof. reflexivity. Qed.
+
 (* libmy/vector.h: whole file *)
 Lemma tie_vector_h : TIE_vector_h =
   [(0, "#include<assert.h>");
